@@ -35,6 +35,7 @@ type reconnectState struct {
 	nextDelay   time.Duration
 	lastAttempt time.Time
 	timer       *time.Timer
+	timerSeq    uint64 // sequence number of the timer armed last; older timers are ignored when they fire
 }
 
 // Reconnector handles automatic reconnection with exponential backoff.
@@ -42,10 +43,11 @@ type Reconnector struct {
 	cfg      ReconnectConfig
 	callback func(addr string) error
 
-	mu     sync.Mutex
-	states map[string]*reconnectState
-	closed bool
-	paused bool
+	mu       sync.Mutex
+	states   map[string]*reconnectState
+	timerSeq uint64 // last timer sequence number handed out
+	closed   bool
+	paused   bool
 }
 
 // NewReconnector creates a new reconnector.
@@ -85,24 +87,40 @@ func (r *Reconnector) Schedule(addr string) {
 		return
 	}
 
+	// Schedule reconnect
+	r.armTimer(addr, state)
+}
+
+// armTimer replaces the pending timer of state (if any) by a new one for the
+// current backoff delay. There is at most one live timer per address: a timer
+// that was superseded but had already fired is recognized by its sequence
+// number and does nothing. Must be called with r.mu held.
+func (r *Reconnector) armTimer(addr string, state *reconnectState) {
+	if state.timer != nil {
+		state.timer.Stop()
+	}
+
+	r.timerSeq++
+	seq := r.timerSeq
+	state.timerSeq = seq
+
 	// Calculate delay with jitter
 	delay := r.addJitter(state.nextDelay)
-
-	// Schedule reconnect
 	state.timer = time.AfterFunc(delay, func() {
-		r.attemptReconnect(addr)
+		r.attemptReconnect(addr, seq)
 	})
 }
 
-// attemptReconnect attempts to reconnect to the given address.
-func (r *Reconnector) attemptReconnect(addr string) {
+// attemptReconnect attempts to reconnect to the given address. seq identifies
+// the timer that fired.
+func (r *Reconnector) attemptReconnect(addr string, seq uint64) {
 	verifhook.At("reconnect.attempt.enter", r, addr)
 	defer verifhook.At("reconnect.attempt.exit", r, addr)
 	r.mu.Lock()
 	state, exists := r.states[addr]
 	// A timer that fired just before Pause() must not start an attempt: the
 	// state is kept for Resume(), like for the timers Pause() could still stop.
-	if !exists || r.closed || r.paused {
+	if !exists || r.closed || r.paused || state.timerSeq != seq {
 		r.mu.Unlock()
 		return
 	}
@@ -128,6 +146,12 @@ func (r *Reconnector) attemptReconnect(addr string) {
 		return
 	}
 
+	// The state was canceled, reset or replaced while the attempt was in
+	// flight: this attempt no longer decides about retries for the address.
+	if r.states[addr] != state {
+		return
+	}
+
 	if err != nil {
 		// Reschedule if still within limits
 		if r.cfg.MaxAttempts == 0 || state.attempts < r.cfg.MaxAttempts {
@@ -136,18 +160,27 @@ func (r *Reconnector) attemptReconnect(addr string) {
 				// timer, the backoff state is kept for Resume() + Schedule().
 				return
 			}
-			delay := r.addJitter(state.nextDelay)
-			state.timer = time.AfterFunc(delay, func() {
-				r.attemptReconnect(addr)
-			})
+			// A timer may already have been armed for this address while the
+			// callback ran (the callback itself may call Schedule); armTimer
+			// replaces it instead of adding a second one.
+			r.armTimer(addr, state)
 		} else {
 			// Max attempts reached, clean up
-			delete(r.states, addr)
+			r.dropState(addr, state)
 		}
 	} else {
 		// Success! Reset state
-		delete(r.states, addr)
+		r.dropState(addr, state)
 	}
+}
+
+// dropState removes the state of addr, stopping a timer that may have been
+// armed while an attempt was in flight. Must be called with r.mu held.
+func (r *Reconnector) dropState(addr string, state *reconnectState) {
+	if state.timer != nil {
+		state.timer.Stop()
+	}
+	delete(r.states, addr)
 }
 
 // addJitter adds random jitter to a duration.
